@@ -236,6 +236,82 @@ Proof.
   apply within_limit_accepted; [apply payload_len_nonneg|right; assumption].
 Qed.
 
+(** * Exact characterisation and sessions *)
+
+(** A message is accepted exactly when no limit applies to the receiving side or it fits. *)
+Lemma accept_iff c d t size :
+  0 <= size ->
+  (o_accept (decide c d t size) = true <->
+   (effective_max c <= 0 \/ size <= effective_max c \/ (d = S2C /\ t <> WS))).
+Proof.
+  intros Hs. destruct d.
+  - rewrite decide_c2s by assumption. cbv zeta.
+    destruct (Z.gtb_spec (effective_max c) 0), (Z.gtb_spec size (effective_max c)); simpl;
+      split; auto; try lia; intros [?|[?|[? _]]]; try lia; discriminate.
+  - rewrite decide_s2c. cbv zeta. unfold announced_max_payload.
+    destruct t; simpl; try (split; auto; intros _; right; right; split; congruence).
+    destruct (Z.gtb_spec (effective_max c) 0), (Z.gtb_spec size (effective_max c)); simpl;
+      split; auto; try lia; intros [?|[?|[_ ?]]]; try lia; congruence.
+Qed.
+
+(** handleDataRequest, branch by branch, on top of the MaxBytesReader relation: whatever run the
+    reader takes, the handler's answer is [post_decision]. *)
+Lemma post_decision_is_handler declared body max r :
+  0 <= body -> 0 < max -> content_length declared <= max ->
+  mbr_run body max 0 0 r ->
+  post_decision declared body max =
+    match fst r with
+    | RDone _ => accepted 200 (snd r)
+    | RTooBig _ => rejected 413 (snd r)
+    end.
+Proof.
+  intros Hb Hm Hcl Hrun. apply max_bytes_read_is_reader in Hrun; try lia. subst r.
+  unfold post_decision.
+  destruct (Z.gtb_spec max 0); [|lia].
+  destruct (Z.gtb_spec (content_length declared) max); [lia|]. simpl.
+  unfold max_bytes_read. destruct (Z.leb_spec body max); reflexivity.
+Qed.
+
+(** What a session delivers is a prefix of what was sent; it is everything exactly when the
+    transport was not closed; every delivered message was accepted; and the message at which a
+    session was closed is one the receiver refuses. *)
+Lemma session_prefix c d t sizes :
+  let '(dl, cl) := session c d t sizes in
+  exists rest, sizes = dl ++ rest /\
+    Forall (fun s => o_accept (decide c d t s) = true) dl /\
+    (cl = false -> rest = []) /\
+    (cl = true -> exists s rest', rest = s :: rest' /\ o_accept (decide c d t s) = false).
+Proof.
+  induction sizes as [|s sizes IH]; simpl.
+  - exists []. repeat split; auto. discriminate.
+  - destruct (o_accept (decide c d t s)) eqn:E.
+    + destruct (session c d t sizes) as [dl cl]. destruct IH as (rest & -> & Hall & Hopen & Hcl).
+      exists rest. repeat split; auto.
+    + exists (s :: sizes). repeat split; auto; try discriminate.
+      intros _. exists s, sizes. auto.
+Qed.
+
+Lemma session_all_within c d t sizes :
+  Forall (fun s => 0 <= s /\ within_announced c s) sizes ->
+  session c d t sizes = (sizes, false).
+Proof.
+  induction 1 as [|s sizes [Hs Hw] _ IH]; simpl; auto.
+  destruct (within_limit_accepted c d t s Hs Hw) as (-> & _). now rewrite IH.
+Qed.
+
+(** On the server, with the limit on: nothing over the limit is ever delivered in any session. *)
+Lemma session_server_delivers_within c t sizes :
+  limit_on c -> Forall (fun s => 0 <= s) sizes ->
+  Forall (fun s => s <= the_limit c) (fst (session c C2S t sizes)).
+Proof.
+  intros Hon Hnn. pose proof (session_prefix c C2S t sizes) as H.
+  destruct (session c C2S t sizes) as [dl cl]. destruct H as (rest & -> & Hall & _). simpl.
+  apply Forall_app in Hnn. destruct Hnn as [Hnn _].
+  rewrite Forall_forall in *. intros s Hin.
+  destruct (server_never_buffers_beyond c t s Hon (Hnn s Hin)) as (_ & Hacc & _).
+  apply Hacc. apply Hall. assumption.
+Qed.
+
 (** * Statements as used by Props/C13.v *)
 
 Lemma announced_is_limit_full c :
